@@ -211,6 +211,21 @@ func (db *DB) loadSchema(of Object) (s *Schema, err error) {
 			return
 		}
 
+		// the schema file may contain anything
+		if s == nil {
+			err = fmt.Errorf("%w: no schema in %s", ErrMalformedSchema, path)
+			return
+		}
+
+		// object structure must be controlled before initializing schema
+		// as initialization relies on field descriptors
+		if s.Fields != nil {
+			if e := s.Fields.FieldsCompatibleWith(FieldDescriptors(of)); e != nil {
+				err = fmt.Errorf("%T %w: %s", of, ErrStructureChanged, e)
+				return
+			}
+		}
+
 		// we initialize schema from object
 		if err = s.initialize(db, of); err != nil {
 			return
